@@ -38,6 +38,14 @@ func killChildMain(args []string) {
 			os.Exit(1)
 		}
 		os.Stdout.WriteString(fmt.Sprintf("A %d %s\n", k, off))
+		if (k-start)%7 == 3 {
+			// every now and then another handle on the same file is opened, used for a read and closed cleanly while
+			// this one keeps appending (another component of the same program, or another process)
+			if other, err := ebsql.New(path); err == nil {
+				other.Read(ctx, eb.OffsetOldest, 1)
+				other.Close()
+			}
+		}
 		if saveEvery > 0 && k%saveEvery == 0 {
 			if err := st.SaveOffset(ctx, "s", off); err != nil {
 				fmt.Println("E", err)
@@ -259,6 +267,51 @@ func durableDomain(lines []string) []string {
 			}
 			dc.acked = recs
 			dc.out = append(dc.out, verdict)
+		case "twohandles": // a second handle on the same file is opened and cleanly closed while the first is still in use
+			a, err := ebsql.New(dc.path)
+			if err != nil {
+				dc.out = append(dc.out, "!open-failed "+err.Error())
+				continue
+			}
+			appendOne := func(st *ebsql.SQLiteStore) bool {
+				data, _ := json.Marshal(map[string]int{"id": dc.next})
+				if _, err := st.Append(context.Background(), &eb.Event{Type: "t", Data: data, Timestamp: time.Unix(int64(dc.next), 0)}); err != nil {
+					return false
+				}
+				dc.acked = append(dc.acked, dc.next)
+				dc.next++
+				return true
+			}
+			ok := appendOne(a) && appendOne(a)
+			b, err := ebsql.New(dc.path)
+			if err == nil {
+				ok = appendOne(b) && ok
+				b.Close()
+			}
+			ok = appendOne(a) && appendOne(a) && ok
+			// a reader that has not drained its iterator when the store is closed
+			for range a.ReadStream(context.Background(), eb.OffsetOldest) {
+				break
+			}
+			a.Close()
+			if !ok || err != nil {
+				dc.out = append(dc.out, fmt.Sprintf("!twohandles an append or the second open failed: %v", err))
+				continue
+			}
+			dc.out = append(dc.out, "twohandles ok")
+		case "appendnil": // an event without payload is refused; whatever the answer, the log stays readable after reopening
+			st, err := ebsql.New(dc.path)
+			if err != nil {
+				dc.out = append(dc.out, "!open-failed "+err.Error())
+				continue
+			}
+			_, aerr := st.Append(context.Background(), &eb.Event{Type: "t", Data: nil, Timestamp: time.Unix(1, 0)})
+			st.Close()
+			if aerr == nil {
+				dc.out = append(dc.out, "!appendnil an event without payload was acknowledged")
+			} else {
+				dc.out = append(dc.out, "appendnil refused")
+			}
 		case "saveretry": // a SaveOffset that fails (its context is already over) is retried with the same offset, then the store is reopened
 			st, err := ebsql.New(dc.path)
 			if err != nil {
